@@ -331,6 +331,35 @@ def section_covariance():
                     fail("covariance", "result for a direct sum is not the direct sum of the results", layout=li, output=NAMES[s], order=k)
 
 
+def section_covariance_masks():
+    """C15 with selective elimination masks given as a dictionary: relabelling the blocks (keys follow the labels) and listing the dictionary in any order do not change the result."""
+    global cases
+    E = [0.0, 1.0, 2.5, 4.0, 5.5, 7.5, 9.0]
+    sub = [0, 0, 0, 1, 1, 1, 2]
+    pb = Problem(E, sub, nparam=1, hermitian=True, seed=61)
+    ham = pb.hamiltonian()
+    chain = np.zeros((3, 3), dtype=bool)
+    chain[0, 2] = chain[2, 0] = True          # kept pattern not transitive
+    pair = np.zeros((3, 3), dtype=bool)
+    pair[0, 1] = pair[1, 0] = True
+    N = 3
+    for name, masks in (("one masked block", {1: chain}), ("two masked blocks", {0: pair, 1: chain}), ("first block only", {0: chain})):
+        base = block_diagonalize(ham, subspace_indices=sub, fully_diagonalize=dict(masks))
+        ref = {(s, k): full(pb.idx, base[s], (k,)) for s in range(3) for k in range(N + 1)}
+        for perm in itertools.permutations(range(3)):
+            for order in ("ascending", "descending"):
+                cases += 1
+                sub2 = [perm[b] for b in sub]
+                items = sorted(((perm[b], m) for b, m in masks.items()), key=lambda kv: kv[0], reverse=(order == "descending"))
+                oth = block_diagonalize(ham, subspace_indices=sub2, fully_diagonalize=dict(items))
+                idx2 = [[a for a in range(pb.n) if sub2[a] == b] for b in range(3)]
+                for s in range(3):
+                    for k in range(N + 1):
+                        if not close(full(idx2, oth[s], (k,)), ref[(s, k)]):
+                            fail("covariance", "mask dictionary: relabelling the blocks / reordering the dictionary changes the result", masks=name, relabelling=perm, key_order=order,
+                                 output=NAMES[s], order=k, err=float(np.abs(full(idx2, oth[s], (k,)) - ref[(s, k)]).max()))
+
+
 def section_covariance_implicit():
     """C15 in implicit mode (direct solver): permuting the explicit eigenvectors permutes the explicit blocks; conjugation; shift; direct sum."""
     global cases
@@ -636,6 +665,10 @@ def section_formats():
     noisy_inputs = {"dense": ([E4 + noise, P1], {"subspace_indices": [0, 0, 1, 1]}), "csr": ([sparse.csr_array(E4 + noise), sparse.csr_array(P1)], {"subspace_indices": [0, 0, 1, 1]}),
                     "coo": ([sparse.coo_array(E4 + noise), sparse.coo_array(P1)], {"subspace_indices": [0, 0, 1, 1]}),
                     "pre-blocked dense": ([blocked(E4 + noise, np.array), blocked(P1, np.array)], {}), "pre-blocked csr": ([blocked(E4 + noise, sparse.csr_array), blocked(P1, sparse.csr_array)], {})}
+    dupl = blocked(E4, sparse.coo_array)
+    dupl[0][1] = sparse.coo_array(([1.0, -1.0], ([0, 0], [1, 1])), shape=(2, 2))      # duplicate entries that cancel: the zero matrix
+    dupl[1][0] = sparse.coo_array(([2.0, -2.0, 1e-14], ([1, 1, 0], [0, 0, 1])), shape=(2, 2))
+    noisy_inputs["pre-blocked coo with cancelling duplicate entries"] = ([dupl, blocked(P1, sparse.coo_array)], {})
     for vname, (ham, kw) in noisy_inputs.items():
         try:
             res = block_diagonalize(ham, **kw)
@@ -645,6 +678,33 @@ def section_formats():
                         fail("formats", "rounding noise within atol in H_0 changes the result", value_type=vname, output=NAMES[s], order=k)
         except Exception as e:  # noqa: BLE001
             fail("formats", "H_0 with rounding noise within atol is rejected for this value type only", value_type=vname, error=repr(e)[:200])
+    # 7. values of the legacy scipy.sparse MATRIX classes throughout (documented value type; `*` is the matrix product for them): nested block lists and full matrices with
+    #    eigenvectors that are themselves sparse matrices, equal and unequal block sizes
+    for sizes in ((3, 3), (2, 3), (2, 2, 2)):
+        nn = sum(sizes)
+        lab = [b for b, sz in enumerate(sizes) for _ in range(sz)]
+        E7 = np.diag(np.arange(nn) * 1.5 + np.array(lab) * 2.0)
+        P7 = herm_rand(np.random.default_rng(7 + nn), nn, cplx=False).real
+        ref7 = block_diagonalize([E7, P7], subspace_indices=lab)
+        idx7 = [[a for a in range(nn) if lab[a] == b] for b in range(len(sizes))]
+        cuts = np.cumsum((0,) + sizes)
+        for mat in (sparse.csr_matrix, sparse.csc_matrix, sparse.coo_matrix):
+            cases += 1
+            def blocks7(A, mat=mat):
+                return [[mat(A[cuts[i]:cuts[i + 1], cuts[j]:cuts[j + 1]]) if (i == j or A is not E7) else zero for j in range(len(sizes))] for i in range(len(sizes))]
+            variants7 = {"nested blocks": lambda: block_diagonalize([blocks7(E7), blocks7(P7)]),
+                         "full matrices, sparse-matrix eigenvectors": lambda: block_diagonalize([mat(E7), mat(P7)], subspace_eigenvectors=[mat(np.eye(nn)[:, ix]) for ix in idx7])}
+            for vname, mk in variants7.items():
+                try:
+                    with warnings.catch_warnings():
+                        warnings.simplefilter("ignore")
+                        res = mk()
+                        for s_ in range(3):
+                            for k in range(N + 1):
+                                if not close(full(idx7, res[s_], (k,)), full(idx7, ref7[s_], (k,)), 1e-9):
+                                    fail("formats", "legacy sparse-matrix values give a different result than dense values", variant=vname, cls=mat.__name__, sizes=sizes, output=NAMES[s_], order=k)
+                except Exception as e:  # noqa: BLE001
+                    fail("formats", "legacy sparse-matrix values raised", variant=vname, cls=mat.__name__, sizes=sizes, error=repr(e)[:200])
     # 6. a symbolic Hamiltonian without `symbols`: the order axes are the free symbols sorted by name (in particular the same in every run)
     cases += 1
     sa, sb, sc = sympy.symbols("a b c")
